@@ -55,7 +55,7 @@ PLAN = {
         'note': COMMON_TRUST + 'layout_get_value(_numpad) are proved in unit layout_get against the String-keyed view of the real map (entry Key_<name>_<plane> / <name>, empty = none, key pad only with the option on); only std format! + `impl Display for LayoutModifiers` ("Normal" / "AltGr") stay T3, covered by the exhaustive bounded check layout_values; the transcription of riti.h macro names into entry names is hand-written (tools/gen_keytable.py); Config::get_layout and serde_json::from_value are T3 (the file content is the environment\'s); the bounded check update_engine also flips the number-pad option on a live context.',
     },
     'C05': {
-        'bounded': ['history_independence', 'learn_recall'], 'static': ['no_shared_state'],
+        'bounded': ['history_independence', 'learn_recall', 'update_engine'], 'static': ['no_shared_state'],
         'level': 'proof',
         'units': ['phon', 'pmeth', 'split'],
         'technique': 'Verus: memo invariants (transparent, keys split-stable, prefixes memoised) + spec-level lemma list == ph_list_text(text, ...) independent of the memo',
